@@ -1437,21 +1437,39 @@ class MirFn:
                 return known.get(pl["l"])
         if k == "discr" and not rv["place"].get("p"):
             return known.get(rv["place"]["l"])
+        if k == "un" and rv.get("op") == "Not":
+            pl = (rv.get("op1") or {}).get("copy") or (rv.get("op1") or {}).get("move")
+            if pl and not pl.get("p") and known.get(pl["l"]) in (0, 1) and self._ltypes().get(pl["l"]) == "bool":
+                return 1 - known[pl["l"]]
         return None
+
+    def _ltypes(self):
+        if not hasattr(self, "_lt"):
+            self._lt = {l_["l"]: l_.get("ty") for l_ in self.mir.get("locals") or [] if isinstance(l_, dict)}
+        return self._lt
 
     def feasible(self, path, adts=None):
         """False when the path contradicts itself: it passes a block that gives a local a known constant (bool, integer, enum variant) and later takes an edge of a
         switch on that local (or on its discriminant) that the constant does not select.  Removes the infeasible paths a flag / status enum introduces."""
         known = {}
+        same = {}     # local -> the local it is a plain copy of (so that what a switch edge says about the copy is known of the original, and of its other copies)
         for i, b in enumerate(path):
             blk = self.cfg.blocks[b]
             for s_ in blk["stmts"]:
                 if s_["k"] == "assign" and not s_["lhs"].get("p"):
                     v = self._const_of(s_["rv"], known, adts)
+                    lhs_l = s_["lhs"]["l"]
+                    same.pop(lhs_l, None)
+                    for x_ in [x_ for x_, r_ in same.items() if r_ == lhs_l]:
+                        same.pop(x_, None)
                     if v is None:
-                        known.pop(s_["lhs"]["l"], None)
+                        known.pop(lhs_l, None)
+                        rv_ = s_["rv"]
+                        src = (rv_.get("op") or {}).get("copy") or (rv_.get("op") or {}).get("move") if rv_["k"] == "use" else None
+                        if src and not src.get("p"):
+                            same[lhs_l] = same.get(src["l"], src["l"])
                     else:
-                        known[s_["lhs"]["l"]] = v
+                        known[lhs_l] = v
             t = blk["term"]
             if t["k"] == "call" and not t["dest"].get("p"):
                 known.pop(t["dest"]["l"], None)
@@ -1463,6 +1481,19 @@ class MirFn:
                     listed = [v for v, _ in t["targets"]]
                     if (ev == "otherwise" and val in listed) or (ev not in (None, "otherwise") and val not in ev):
                         return False
+                elif pl and not pl.get("p"):
+                    # the edge taken tells the value of the switched local from here on (a status the caller tests again after a helper tested it)
+                    ev = self.edge_value(b, path[i + 1])
+                    listed = [v for v, _ in t["targets"]]
+                    learned = None
+                    if isinstance(ev, list) and len(ev) == 1:
+                        learned = ev[0]
+                    elif ev == "otherwise" and self._ltypes().get(pl["l"]) == "bool" and listed in ([0], [1]):
+                        learned = 1 - listed[0]
+                    if learned is not None:
+                        root = same.get(pl["l"], pl["l"])
+                        for x_ in [pl["l"], root] + [x_ for x_, r_ in same.items() if r_ == root]:
+                            known[x_] = learned
         return True
 
     def phi_alts(self, term):
@@ -1515,7 +1546,7 @@ class MirFn:
             heads = [h + [s_] for h in heads for s_ in subs][:limit]
         return [tuple(h) for h in heads]
 
-    def feasible_reach(self, start, adts=None, limit=3000):
+    def feasible_reach(self, start, adts=None, limit=3000, via=None):
         """blocks that lie on some feasible path from `start` to a block without successors (return, diverging call): reachability that respects the constants
         the path itself establishes (a status enum set on a failure edge and matched on afterwards)"""
         ends = [i for i, b in self.cfg.blocks.items() if not b.get("cleanup") and not self.cfg.succ.get(i)]
@@ -1524,7 +1555,8 @@ class MirFn:
         for e in ends:
             for p_ in self.paths(start, e, limit):
                 n += 1
-                if self.feasible(p_, adts):
+                # `via`: the block whose switch edge leads to `start` -- what that edge says about the switched local holds on the whole path
+                if self.feasible(([via] + list(p_)) if via is not None else p_, adts):
                     out.update(p_)
         return out if n else self.cfg.reachable_from(start)
 
